@@ -41,6 +41,7 @@ type checkCtx struct {
 	outDir     string
 	verif      string
 	results    map[string]*unitResult
+	refuted    map[string]*Unit // second (exact, bounded) runs of units with broken loop proofs
 	mu         sync.Mutex
 	raceTmo    time.Duration
 	solverWins map[string]int
@@ -115,6 +116,56 @@ func runUnit(p *Prog, name string, f *ssa.Function) *unitResult {
 		// only panicking / loop-cut paths: acceptable only if the function never returns normally
 	}
 	return &unitResult{u: u, secs: time.Since(t0).Seconds()}
+}
+
+// runRefute runs the unit a second time with every loop explored exactly (up to
+// unrollBound-1 iterations) instead of being cut at an invariant. Nothing this run proves
+// counts; what it refutes was refuted on a path that relies on no loop invariant.
+func (cc *checkCtx) runRefute(u *Unit) *Unit {
+	cc.mu.Lock()
+	if cc.refuted == nil {
+		cc.refuted = map[string]*Unit{}
+	}
+	if r, ok := cc.refuted[u.Name]; ok {
+		cc.mu.Unlock()
+		return r
+	}
+	cc.mu.Unlock()
+	u2 := NewUnit(cc.p, u.Name, u.Fn, u.C)
+	u2.refute = true
+	if err := u2.start(); err == nil {
+		func() {
+			defer func() {
+				if r := recover(); r != nil {
+					u2.errs = append(u2.errs, fmt.Sprintf("engine panic in the refutation run: %v", r))
+				}
+			}()
+			u2.VerifyFunc()
+		}()
+		u2.finish()
+	}
+	cc.mu.Lock()
+	cc.refuted[u.Name] = u2
+	cc.mu.Unlock()
+	return u2
+}
+
+// loopLabelOf: "unit/inv-step:loop#1:name" -> "loop#1"
+func loopLabelOf(obName string) string {
+	i := strings.Index(obName, "/inv-")
+	if i < 0 {
+		return ""
+	}
+	rest := obName[i+1:]
+	j := strings.Index(rest, ":")
+	if j < 0 {
+		return ""
+	}
+	rest = rest[j+1:]
+	if k := strings.Index(rest, ":"); k >= 0 {
+		return rest[:k]
+	}
+	return rest
 }
 
 func hasTag(tags []string, t string) bool {
@@ -269,6 +320,10 @@ type obRecord struct {
 	solver string
 	detail string
 	replay string
+	// exact: refuted by the run that explores loops exactly; brokenLoop: fails only behind
+	// the cut of a loop whose invariant no longer holds, and was not refuted exactly
+	exact      bool
+	brokenLoop bool
 }
 
 func (cc *checkCtx) checkProperty(prop string, seed int, known []KnownFinding, baseline map[string][]string, writeEv bool, verbose bool, loadSecs float64) (int, []string) {
@@ -409,6 +464,95 @@ func (cc *checkCtx) checkProperty(prop string, seed int, known []KnownFinding, b
 		}()
 	}
 	wg.Wait()
+	// 4a. broken loop proofs. A loop invariant that no longer holds (or can no longer be
+	// evaluated) is a proof that has to be redone, not a refutation of the property: the
+	// loop may have been rewritten without changing what it computes. What decides is a
+	// second run of the unit in which loops are not cut but explored exactly for a bounded
+	// number of iterations: an obligation that fails there fails on a path that relies on
+	// no invariant, and is reported. What only fails behind a broken cut is undecided.
+	brokenBy := map[*Unit]map[string]bool{}
+	for _, rec := range recs {
+		if rec.status != "discharged" && (rec.o.Class == "inv-entry" || rec.o.Class == "inv-step") && rec.u != nil {
+			if brokenBy[rec.u] == nil {
+				brokenBy[rec.u] = map[string]bool{}
+			}
+			brokenBy[rec.u][loopLabelOf(rec.o.Name)] = true
+		}
+		if rec.u != nil && len(rec.u.brokenLoops) > 0 {
+			if brokenBy[rec.u] == nil {
+				brokenBy[rec.u] = map[string]bool{}
+			}
+			for l := range rec.u.brokenLoops {
+				brokenBy[rec.u][l] = true
+			}
+		}
+	}
+	behindBroken := func(rec *obRecord) bool {
+		bl := brokenBy[rec.u]
+		if len(bl) == 0 {
+			return false
+		}
+		if rec.o.Class == "inv-entry" || rec.o.Class == "inv-step" {
+			return true
+		}
+		n := 0
+		for _, f := range rec.o.Failures {
+			if f.Race != nil && f.Race.Result == "unsat" {
+				continue
+			}
+			n++
+			hit := false
+			for _, c := range f.Cuts {
+				if bl[c] {
+					hit = true
+				}
+			}
+			if !hit {
+				return false
+			}
+		}
+		return n > 0
+	}
+	refutedIn := map[*Unit]map[string]*obRecord{}
+	for u0 := range brokenBy {
+		if u0.Fn == nil {
+			continue
+		}
+		u2 := cc.runRefute(u0)
+		m := map[string]*obRecord{}
+		for _, o := range u2.sortedObligs() {
+			if len(o.Failures) == 0 {
+				continue
+			}
+			r2 := &obRecord{o: o, u: u2}
+			cc.decideFailure(r2, outDir)
+			if r2.status != "discharged" {
+				m[o.Name] = r2
+			}
+		}
+		refutedIn[u0] = m
+		for _, e := range u2.errs {
+			debugf("refutation run of %s: %s", u0.Name, e)
+		}
+	}
+	for _, rec := range recs {
+		m := refutedIn[rec.u]
+		if m == nil {
+			continue
+		}
+		if r2 := m[rec.o.Name]; r2 != nil {
+			// refuted without relying on any invariant: a violation whatever the cut run said
+			rec.o = r2.o
+			rec.u = r2.u
+			rec.status = r2.status
+			rec.solver = r2.solver
+			rec.exact = true
+			continue
+		}
+		if rec.status != "discharged" && behindBroken(rec) {
+			rec.brokenLoop = true
+		}
+	}
 	// 4b. thorough tier: a sample of the instances the incremental solver discharged is
 	// re-checked as standalone queries by all three solvers; any `sat` is a disagreement
 	xInst, xAgree, xUnknown := 0, 0, 0
@@ -487,6 +631,15 @@ func (cc *checkCtx) checkProperty(prop string, seed int, known []KnownFinding, b
 				cc.printf("UNDECIDED property=%s obligation=%s (the unit calls a function without contract while a contract of this package has lost its target: probably a rename)\n", prop, rec.o.Name)
 				continue
 			}
+		}
+		if rec.brokenLoop {
+			undecided++
+			what := "fails only behind the cut of a loop whose invariant no longer holds"
+			if rec.o.Class == "inv-entry" || rec.o.Class == "inv-step" {
+				what = "the loop invariant no longer holds"
+			}
+			cc.printf("UNDECIDED property=%s obligation=%s (%s; exploring the loop exactly for up to %d iterations refutes nothing here: the invariants have to follow the code)\n", prop, rec.o.Name, what, unrollBound-1)
+			continue
 		}
 		// the clause itself talks about calls to a function whose contract has lost its target
 		// (the function was renamed, removed or folded into its caller): the clause cannot be
